@@ -305,6 +305,10 @@ def run(fx, tier):
     whole_argument_size_rules(fx, v, 'C17')
     import effect
     effect.run(fx, v)
+    # the CONNECT of a restarted client still says what the user configured (shared with C10)
+    from c10 import config_copy_rule
+    v.rule('R-FLOW', 'the hand-written copy constructors keep every configured CONNECT input')
+    config_copy_rule(fx, v, 'C17')
     v.expect_min('R-TABLE', 100, 'static_assert rows')
     v.expect_min('R-SCHEMA', 70, 'headers, lengths, fields of 15 encoders')
     v.expect_min('R-EFFECT', 10, 'encoder classes')
